@@ -19,7 +19,8 @@ func init() { props["C10"] = runC10 }
 var c10Keywords = []string{"ignore/file", "ignore/line", "ignore/begin", "ignore/end", "ignore/next-line",
 	"file/owner", "rule/owner", "file/disable", "disable", "file/snooze", "snooze", "rule/set", "bogus", "ignore/next", "Disable"}
 var c10Values = []string{"", "", "", "promql/series", "alerts/template", "bob", "2099-01-01 promql/rate", "2000-01-01T00:00:00Z alerts/for",
-	"2099-13-01 x", "notatime", "foo bar", "# pint ignore/line", "x # y"}
+	"2099-13-01 x", "notatime", "foo bar", "# pint ignore/line", "x # y",
+	"2099-01-01  promql/rate", "2099-01-01\tpromql/rate", "2099-01-01 \t alerts/for  ", "2099-01-01"}
 var c10Plain = []string{"", "  ", "groups:", "- name: g", "  rules:", "  - record: foo", "    expr: up", "  - alert: A", "    expr: up == 0",
 	"{% set x = 1 %}", "{{ jinja }}", "   # plain comment", "key: 'value # not comment'", "\tfoo", "foo\r", "é日 α", "a b", "# pintx disable y", "#pint disable z"}
 
@@ -36,7 +37,13 @@ func c10CommentLine(r *hx.Run) string {
 	sb.WriteString(hx.Pick(rr, []string{" ", "", "  ", "\t", "  "}))
 	sb.WriteString(hx.Pick(rr, []string{"pint", "pint", "pint", "pint", "pin", "pinté", "pint#", "Pint"}))
 	sb.WriteString(hx.Pick(rr, []string{" ", " ", "  ", "\t", ""}))
-	sb.WriteString(hx.Pick(rr, c10Keywords))
+	kw := hx.Pick(rr, c10Keywords)
+	if rr.Intn(8) == 0 && len(kw) > 1 {
+		// a stray character inside the keyword
+		k := 1 + rr.Intn(len(kw)-1)
+		kw = kw[:k] + hx.Pick(rr, []string{"4", ".", "#", "?", "_", "é", "(", "="}) + kw[k:]
+	}
+	sb.WriteString(kw)
 	if rr.Intn(8) == 0 {
 		sb.WriteString(hx.Pick(rr, []string{"#", "1", "x", "/", "-"}))
 	}
